@@ -206,6 +206,20 @@ func VerifCacheHistory() {
 			}
 			rt.Assert(g.size.Load() == gs, "size accounted in a generation = sum of the live entries of that generation")
 		}
+		// the generation new entries go to is one the cleaner sums: the cleaner's own current one and
+		// the one every unreleased cache points at
+		cur := false
+		for _, g := range cl.generations {
+			if g == cl.lastGen {
+				cur = true
+			}
+		}
+		rt.Assert(cur, "the cleaner's current generation is among the generations it sums")
+		for i, c := range caches {
+			if !released[i] {
+				rt.Assert(c.currentGeneration == cl.lastGen, "every unreleased cache adds to the cleaner's current generation")
+			}
+		}
 		for i, c := range caches {
 			if released[i] {
 				continue
